@@ -140,6 +140,11 @@ def process_job(job, known, out, prop, log):
           out.inconclusive.append('%s: counterexample %s did not reproduce natively (%s)' % (
               label, res.get('call'), rp))
           return
+        if 'Unmodelled' in str(rp.get('exception') or ''):
+          # the code under test left the modelled environment (e.g. a file-system primitive MemFS lacks):
+          # the harness cannot decide this code - inconclusive, not a violation
+          out.inconclusive.append('%s: code under test uses an operation outside the model: %s' % (label, rp.get('exception')))
+          return
         hit = next((e for e in known if _matches_known(e, job['module'], job['cond'], res['args'])), None)
         if hit is not None:
           out.known_hits.append((hit, res['args']))
